@@ -60,20 +60,21 @@ type mode struct {
 }
 
 type obs struct {
-	Returned  bool   `json:"returned"`
-	Err       bool   `json:"err"`
-	ErrText   string `json:"err_text,omitempty"`
-	CtxErr    bool   `json:"is_ctx_err"`
-	InjErr    bool   `json:"is_injected_err"`
-	CauseErr  bool   `json:"is_cause_err,omitempty"`
-	Closed    bool   `json:"closed"`
-	Ops       int    `json:"ops"`
-	OpsLater  int    `json:"ops_later"`
-	Log       string `json:"log"`
-	Unjudged  bool   `json:"unjudged,omitempty"` // slow in the loaded phase, not re-run (no timing failure was reproducible)
-	Reached   bool   `json:"stall_reached"`      // the stalling call had begun when the operation returned
-	ElapsedMs int64  `json:"elapsed_ms"`         // from the cancellation (or start) to the return; not compared
-	PeerErr   string `json:"peer_err,omitempty"`
+	Returned  bool     `json:"returned"`
+	Err       bool     `json:"err"`
+	ErrText   string   `json:"err_text,omitempty"`
+	CtxErr    bool     `json:"is_ctx_err"`
+	InjErr    bool     `json:"is_injected_err"`
+	CauseErr  bool     `json:"is_cause_err,omitempty"`
+	Closed    bool     `json:"closed"`
+	Ops       int      `json:"ops"`
+	OpsLater  int      `json:"ops_later"`
+	Log       string   `json:"log"`
+	Armed     []string `json:"deadlines_armed,omitempty"` // Set*Deadline(non-zero) calls the library made on the connection
+	Unjudged  bool     `json:"unjudged,omitempty"`        // slow in the loaded phase, not re-run (no timing failure was reproducible)
+	Reached   bool     `json:"stall_reached"`             // the stalling call had begun when the operation returned
+	ElapsedMs int64    `json:"elapsed_ms"`                // from the cancellation (or start) to the return; not compared
+	PeerErr   string   `json:"peer_err,omitempty"`
 }
 
 func findShape(name string) *shape {
@@ -235,6 +236,7 @@ func runOne(sh *shape, m mode, bd bounds) (obs, error) {
 		time.Sleep(30 * time.Millisecond)
 	}
 	o.Closed = a.isClosed()
+	o.Armed = a.armed()
 	o.OpsLater = a.opCount() - o.Ops
 	o.Log = a.opLog()
 	// release everything that may still be blocked
@@ -280,6 +282,12 @@ func judge(sh *shape, m mode, nops int, o obs, b bounds) (key, why string) {
 	if !o.Returned {
 		return "hang", id + ": the operation did not return within " + b.hang.String()
 	}
+	if len(o.Armed) > 0 {
+		// no shape here calls Stream.SetTimeout: whatever the context, the library must
+		// not arm a socket deadline of its own (with context.Background() it would be a
+		// failure mode the caller never asked for)
+		return "deadline-armed", fmt.Sprintf("%s: the library armed a deadline on the connection (%s x%d) although no timeout was requested", id, o.Armed[0], len(o.Armed))
+	}
 	switch m.Timing {
 	case "before", "during", "between":
 		if !o.Err {
@@ -318,7 +326,7 @@ func judge(sh *shape, m mode, nops int, o obs, b bounds) (key, why string) {
 		if o.Err {
 			return "spurious-error", id + ": undisturbed exchange failed: " + o.ErrText
 		}
-		if o.Closed {
+		if o.Closed && !sh.selfClosing {
 			return "spurious-close", id + ": the connection was closed although the exchange completed (late cancellation must be harmless)"
 		}
 		if o.Ops != nops {
@@ -331,7 +339,7 @@ func judge(sh *shape, m mode, nops int, o obs, b bounds) (key, why string) {
 		if sh.plain && !o.InjErr {
 			return "error-class", id + ": with context.Background() the connection's own error must come back, got: " + o.ErrText
 		}
-		if o.Closed {
+		if o.Closed && !sh.selfClosing {
 			return "spurious-close", id + ": connection closed by the library under context.Background()"
 		}
 	}
@@ -348,7 +356,7 @@ func quiet() {
 
 func gen(c *core.Ctx) error {
 	quiet()
-	c.Rule("every exchange shape (plain frames, AES frames, AES frames and a CLAIMTOBE handshake on streams whose connection was installed with SetConnection after construction, typed messages, secret+file, handshakes: no-auth clear/AES, CLAIMTOBE, FS, FS|CLAIMTOBE, TOKEN, resumed session; each followed by a request/reply) is run on the real code on both roles over an instrumented connection; a reference run counts the connection-level calls N of the instrumented side; then for EVERY k<N call k is made to stall for ever and the context is cancelled (synchronously, from a timer, by deadline; with plain contexts and with WithCancelCause / WithTimeoutCause contexts carrying a custom cause - the error must still be ctx.Err(); stall inside a channel wait or inside a real net.Pipe call); also: context cancelled beforehand, cancelled right after call k completed, cancelled after completion, context.Background() undisturbed and with the connection failing from call k. non-trivial = a during/between case (stall or cancellation in the middle of the exchange); distinct by (shape, role, timing, k, variant)")
+	c.Rule("every exchange shape (plain frames, AES frames, AES frames and a CLAIMTOBE handshake on streams whose connection was installed with SetConnection after construction, a CLAIMTOBE handshake + command served through the accept loop server.Serve (the context under test is the one handed to Serve), typed messages, secret+file, handshakes: no-auth clear/AES, CLAIMTOBE, FS, FS|CLAIMTOBE, TOKEN, resumed session; each followed by a request/reply) is run on the real code on both roles over an instrumented connection; a reference run counts the connection-level calls N of the instrumented side; then for EVERY k<N call k is made to stall for ever and the context is cancelled (synchronously, from a timer, by deadline; with plain contexts and with WithCancelCause / WithTimeoutCause contexts carrying a custom cause - the error must still be ctx.Err(); stall inside a channel wait or inside a real net.Pipe call); also: context cancelled beforehand, cancelled right after call k completed, cancelled after completion, context.Background() undisturbed and with the connection failing from call k. non-trivial = a during/between case (stall or cancellation in the middle of the exchange); distinct by (shape, role, timing, k, variant)")
 	c.Assume("closing a net.Conn makes a blocked Read/Write return (exercised on net.Pipe, a TCP loopback pair and the harness connection, not provable in the model)")
 	c.Assume("promptness is measured against a 2 s bound (3 s to return at all), not proved; a failure on these bounds counts only if it also fails isolated re-runs with the bounds doubled up to 16 s / 24 s")
 	assumptionProbe(c)
@@ -533,8 +541,8 @@ func gen(c *core.Ctx) error {
 		if j.m.Timing == "during" && !o.Reached {
 			c.Count("deadline-before-stall")
 		}
-		if o.Unjudged {
-			c.Evaluated(1)
+		if o.Unjudged || (j.sh.selfClosing && j.m.Timing != "during") {
+			c.Evaluated(1) // the accept loop closes a finished connection itself: "closed" is not comparable with the model there
 		} else if j.m.Timing != "between" && !(j.m.Timing == "during" && !o.Reached) {
 			c.AddCase(fmt.Sprintf("CRun %s %s %s %s %s %s %s", core.Nat(j.nops), core.Nat(j.m.K), timingTerm(j.m.Timing),
 				core.Bool(o.Returned), core.Bool(o.Err), core.Bool(o.Closed), core.Nat(opsForModel(j.m, j.nops, o))), desc)
